@@ -3,11 +3,15 @@ C18 — property theorems (and non-vacuity examples). Helper lemmas live in Proo
 
 JWT       handler_runs_only_if_verified, outcome_independent_of_history, jwt_outcome_independent_of_history,
           jwt_handler_runs_iff_valid_credential, rejected_gets_401, claims_forwarded, jwt_rejects_* corollaries,
-          jwt_monitor_sound
+          jwt_monitor_sound; history_unchanged_on_failure, history_counts_the_verifying_secret, history_reset
 content   cs_runs_only_if_signature_covers_request, cs_monitor_sound; witnesses of the two recorded findings:
 security  method_gate_bypass, request_uri_override
 codec     unpad_pad (after fixes/C18-unpad-empty.patch), unpadPinned_pad / unpadPinned_* (witnesses of the pinned code),
-          b64_round_trip, ecb_round_trip (body_round_trip: partial, see the comment next to it)
+          b64_round_trip, ecb_round_trip, body_round_trip, reply_round_trip
+framing   verifySignature_ignores_content_length, csCovers_ignores_content_length, cs_handler_reads_signed_body,
+          cs_body_monitor_sound, crypt_monitor_sound, crypt_monitor_sound_on_handler, properlyEncrypted_of_encrypt,
+          cs_encrypted_goes_to_cryption, cs_encrypted_body_round_trip (after
+          fixes/C18-chunked-body.patch), chunked_body_not_decrypted_pinned (witness of the pinned code)
 -/
 import GoZero.C18.Proofs
 namespace GoZero.C18
@@ -215,6 +219,56 @@ theorem jwt_monitor_sound {V : Type} [DecidableEq V] (f : TokenFacts V) (now : I
     have := (claims_forwarded _ h secret prev clock _ hc).1
     simp [← hiff, this]
 
+/-! ### TokenParser.history -/
+
+/-- `TokenParser.history` changes only when a token verified: a rejected request leaves the counters alone -/
+theorem history_unchanged_on_failure {C : Type} (verify : String → Parsed C) (h : Hist) (secret prev : String)
+    (clock : Int) (he : (parseToken verify h secret prev clock).2.isErr = true) :
+    (parseToken verify h secret prev clock).1 = h := by
+  unfold parseToken at he ⊢
+  by_cases hp : prev.length > 0
+  · simp only [hp, if_true] at he ⊢
+    by_cases e1 : (verify (firstSecond h secret prev).1).isErr = true
+    · by_cases e2 : (verify (firstSecond h secret prev).2).isErr = true
+      · simp [e1, e2]
+      · simp [e1, e2] at he
+    · simp [e1] at he
+  · simp [hp]
+
+/-- on success with a previous secret configured, exactly the counter of a secret under which the token verified is
+incremented (after the reset test) -/
+theorem history_counts_the_verifying_secret {C : Type} (verify : String → Parsed C) (h : Hist) (secret prev : String)
+    (clock : Int) (hp : prev.length > 0) (hok : (parseToken verify h secret prev clock).2.isErr = false) :
+    ∃ x, (x = secret ∨ x = prev) ∧ (verify x).isErr = false ∧
+      (parseToken verify h secret prev clock).1 = h.increment x clock ∧
+      (parseToken verify h secret prev clock).2 = verify x := by
+  unfold parseToken at hok ⊢
+  simp only [hp, if_true] at hok ⊢
+  have hfs : ((firstSecond h secret prev).1 = secret ∧ (firstSecond h secret prev).2 = prev) ∨
+      ((firstSecond h secret prev).1 = prev ∧ (firstSecond h secret prev).2 = secret) := by
+    unfold firstSecond
+    by_cases hc : h.count secret > h.count prev <;> simp [hc]
+  by_cases e1 : (verify (firstSecond h secret prev).1).isErr = true
+  · by_cases e2 : (verify (firstSecond h secret prev).2).isErr = true
+    · simp [e1, e2] at hok
+    · simp only [e1, e2, if_true]
+      refine ⟨(firstSecond h secret prev).2, ?_, by simpa using e2, rfl, rfl⟩
+      rcases hfs with ⟨_, b⟩ | ⟨_, b⟩ <;> simp [b]
+  · simp only [e1]
+    refine ⟨(firstSecond h secret prev).1, ?_, by simpa using e1, rfl, rfl⟩
+    rcases hfs with ⟨a, _⟩ | ⟨a, _⟩ <;> simp [a]
+
+/-- after the reset time every success starts the counters afresh: only the secret just counted is present -/
+theorem history_reset (h : Hist) (s : String) (clock : Int) (hexp : h.resetTime + h.resetDuration < clock) :
+    (h.increment s clock).counts = [(s, 1)] := by
+  unfold Hist.increment
+  simp [hexp]
+
+example : (parseToken (fun s => if s = "old" then Parsed.tok true (some ()) else .err) {} "new" "old" 5).1.counts
+    = [("old", 1)] := by decide
+example : (parseToken (fun _ => (Parsed.err : Parsed Unit)) { counts := [("old", 3)] } "new" "old" 5).1.counts
+    = [("old", 3)] := by decide
+
 /-! ## content security -/
 
 theorem cs_runs_only_if_signature_covers_request (C : BlockCipher) (env : CsEnv) (cfg : CsCfg) (req : CsReq)
@@ -240,7 +294,7 @@ theorem request_uri_override (C : BlockCipher) (env : CsEnv) (cfg : CsCfg) (req 
     (hw : outsideWindow s cfg.tol env.now = false)
     (huri : req.uri.isEmpty = false) (hup : env.urlParse req.uri = some (p', q'))
     (hsig : h.signature = env.hmacB64 h.key (signContent env h.timestamp req.method p' q' req.body))
-    (hplain : ¬ (req.cl > 0 ∧ h.contentType = 1)) :
+    (hplain : ¬ (req.cl ≠ 0 ∧ h.contentType = 1)) :
     contentSecurity C env cfg req inner = plainNext inner req.body := by
   have hv : verifySignature env cfg.tol req h = 0 := by
     unfold verifySignature pathQuery
@@ -337,15 +391,228 @@ theorem ecb_round_trip (C : BlockCipher) (key : Bytes) (hk : C.keyOk key = true)
   rw [if_pos hk, e1, e2, unpad_pad C.bs hbs hbs' p]
 
 
-/- body_round_trip (full statement, NOT proven as one theorem):
-     ∀ C key (sound, keyOk) limit p inner, p ≠ [] → raw = asciiBytes (b64Encode ct) with ecbEncrypt C key p = some ct →
-       raw.length ≤ limit ∨ limit ≤ 0 →
-       cryptionHandler C limit key raw.length raw inner = flushResp C key p (inner p)
-     and the client decoding of `flushResp … out` (base64 decode, ecbDecrypt) gives back `out`.
-   Proven pieces: `ecb_round_trip` (pad/encrypt/decrypt/unpad for every payload), `b64_round_trip`.
-   Missing: the transport lemma `bytesToString (asciiBytes (b64Encode ct)) = b64Encode ct` (every base64 character is
-   below 128) and the composition. The composition is checked at run time by `cryptMonitor` on every generated
-   payload length (0..80, block boundaries included) in both directions. -/
+/-- "an encrypted body reaches the handler decrypted … round-tripping any payload": for EVERY payload `p` (the empty one
+included) the text `base64 (E (pad p))`, sent as the body with its length declared (`cl = length`, within the limit) or
+with unknown length (`cl = -1`, chunked; within the limit or `maxBytes`), makes the cryption handler call the wrapped
+handler on exactly `p`, and what the client gets is `flushResp` of the handler's reply (see `reply_round_trip`). -/
+theorem body_round_trip (C : BlockCipher) (key : Bytes) (hk : C.keyOk key = true) (hs : C.Sound key)
+    (hbs : 0 < C.bs) (hbs' : C.bs ≤ 255) (limit : Int) (p : Bytes) (inner : Inner) :
+    ∃ ct, ecbEncrypt C key p = some ct ∧
+      (¬ (limit > 0 ∧ ((asciiBytes (b64Encode ct)).length : Int) > limit) →
+        cryptionHandler C limit key (asciiBytes (b64Encode ct)).length (asciiBytes (b64Encode ct)) inner
+          = flushResp C key p (inner p)) ∧
+      (((asciiBytes (b64Encode ct)).length : Int) ≤ (if limit > 0 then limit else maxBytes) →
+        cryptionHandler C limit key (-1) (asciiBytes (b64Encode ct)) inner = flushResp C key p (inner p)) := by
+  obtain ⟨ct, he, hd⟩ := ecb_round_trip C key hk hs hbs hbs' p
+  refine ⟨ct, he, ?_, ?_⟩
+  all_goals
+    have hne : ct ≠ [] := by
+      intro h; subst h; exact ecbDecrypt_nil_not_ok C key p hd
+    have hlen : 0 < (asciiBytes (b64Encode ct)).length := by
+      rw [asciiBytes_b64_length]
+      exact List.length_pos_iff.mpr (b64EncodeChars_ne_nil ct hne)
+  · intro hl
+    generalize hraw : asciiBytes (b64Encode ct) = raw at hl hlen
+    unfold cryptionHandler
+    have h0 : ¬ ((raw.length : Int) = 0) := by omega
+    have h1 : (raw.length : Int) > 0 := by omega
+    rw [if_neg h0, if_neg hl, if_pos h1, if_neg (by omega)]
+    have : raw.take (raw.length : Int).toNat = raw := by simp
+    rw [this, ← hraw]
+    exact decryptAndServe_b64 C key ct p inner hd
+  · intro hl
+    generalize hraw : asciiBytes (b64Encode ct) = raw at hl hlen
+    unfold cryptionHandler
+    have hne' : raw.isEmpty = false := by
+      cases raw with
+      | nil => simp at hlen
+      | cons => rfl
+    rw [if_neg (by omega), if_neg (by omega), if_neg (by omega), if_neg (by omega)]
+    simp only [hne', Bool.false_eq_true, if_false]
+    rw [← hraw]
+    exact decryptAndServe_b64 C key ct p inner hd
+
+/-- "the response is returned encrypted": what the client receives for a non-empty reply `out` is the base64 text of
+a ciphertext that decrypts to `out` (and an empty reply stays empty). -/
+theorem reply_round_trip (C : BlockCipher) (key : Bytes) (hk : C.keyOk key = true) (hs : C.Sound key)
+    (hbs : 0 < C.bs) (hbs' : C.bs ≤ 255) (seen out : Bytes) (hne : out ≠ []) :
+    ∃ ct, (flushResp C key seen out) = { ran := true, seen := seen, status := 200, body := asciiBytes (b64Encode ct) } ∧
+      b64Decode (bytesToString (flushResp C key seen out).body) = some ct ∧ ecbDecrypt C key ct = .ok out := by
+  obtain ⟨ct, he, hd⟩ := ecb_round_trip C key hk hs hbs hbs' out
+  have hemp : out.isEmpty = false := by
+    cases out with
+    | nil => exact absurd rfl hne
+    | cons => rfl
+  have hf : flushResp C key seen out = { ran := true, seen := seen, status := 200, body := asciiBytes (b64Encode ct) } := by
+    unfold flushResp
+    simp [hemp, he]
+  refine ⟨ct, hf, ?_, hd⟩
+  rw [hf]
+  simp only
+  rw [bytesToString_asciiBytes_b64, b64Decode_encode]
+
+theorem flushResp_empty (C : BlockCipher) (key seen : Bytes) :
+    flushResp C key seen [] = { ran := true, seen := seen, status := 200 } := by
+  unfold flushResp; simp
+
+/-! ### framing -/
+
+/-- the signature check reads the body, never `r.ContentLength`: the same bytes verify alike whether they come with a
+declared length, with unknown length (chunked) or with a wrong length -/
+theorem verifySignature_ignores_content_length (env : CsEnv) (tol : Int) (req : CsReq) (h : CsHeader) (c : Int) :
+    verifySignature env tol { req with cl := c } h = verifySignature env tol req h := rfl
+
+theorem csCovers_ignores_content_length (env : CsEnv) (cfg : CsCfg) (req : CsReq) (c : Int) :
+    csCovers env cfg { req with cl := c } = csCovers env cfg req := rfl
+
+/-- strict mode, a checked method, no X-Request-Uri: whenever the handler runs on a request that is not marked
+encrypted, it reads exactly the bytes whose digest the signature covers — for every framing -/
+theorem cs_handler_reads_signed_body (C : BlockCipher) (env : CsEnv) (cfg : CsCfg) (req : CsReq) (inner : Inner)
+    (hs : cfg.strict = true) (hg : gatedMethods.contains req.method = true) (hu : req.uri = "")
+    (hran : (contentSecurity C env cfg req inner).ran = true) :
+    ∃ h, parseContentSecurity env req = .ok h ∧ csCovers env cfg req = true ∧
+      (h.contentType ≠ 1 → (contentSecurity C env cfg req inner).seen = req.body) := by
+  obtain ⟨h, hp, hv⟩ := contentSecurity_strict_ran C env cfg req inner hs hg hran
+  refine ⟨h, hp, cs_runs_only_if_signature_covers_request C env cfg req inner hs hg hu hran, ?_⟩
+  intro ht
+  unfold contentSecurity
+  rw [if_pos hg]
+  simp [hp, hv, ht, plainNext]
+
+theorem cs_body_monitor_sound (C : BlockCipher) (env : CsEnv) (cfg : CsCfg) (req : CsReq) (inner : Inner)
+    (hg : gatedMethods.contains req.method = true) (hu : req.uri = "") :
+    csBodyMonitor env cfg req (contentSecurity C env cfg req inner) = none := by
+  unfold csBodyMonitor
+  by_cases hc : cfg.strict = true ∧ (contentSecurity C env cfg req inner).ran = true ∧ csCovers env cfg req = true
+  · rw [if_pos hc]
+    obtain ⟨h, hp, _, hseen⟩ := cs_handler_reads_signed_body C env cfg req inner hc.1 hg hu hc.2.1
+    rw [hp]
+    simp only
+    by_cases ht : h.contentType = 1
+    · simp [ht]
+    · simp [ht, hseen ht]
+  · rw [if_neg hc]
+
+/-- a verified request marked encrypted is handed to the cryption handler for EVERY framing with a body
+(`ContentLength ≠ 0`), a chunked one included -/
+theorem cs_encrypted_goes_to_cryption (C : BlockCipher) (env : CsEnv) (cfg : CsCfg) (req : CsReq) (inner : Inner)
+    (h : CsHeader) (hg : gatedMethods.contains req.method = true)
+    (hp : parseContentSecurity env req = .ok h) (hv : verifySignature env cfg.tol req h = 0)
+    (ht : h.contentType = 1) (hcl : req.cl ≠ 0) :
+    contentSecurity C env cfg req inner = cryptionHandler C cfg.limit h.key req.cl req.body inner := by
+  unfold contentSecurity
+  rw [if_pos hg]
+  simp [hp, hv, ht, hcl]
+
+/-- the whole path: a verified, encrypted body — sent with its length or chunked — reaches the handler as the
+payload the client encrypted -/
+theorem cs_encrypted_body_round_trip (C : BlockCipher) (env : CsEnv) (cfg : CsCfg) (req : CsReq) (inner : Inner)
+    (h : CsHeader) (hg : gatedMethods.contains req.method = true)
+    (hp : parseContentSecurity env req = .ok h) (hv : verifySignature env cfg.tol req h = 0)
+    (ht : h.contentType = 1)
+    (hk : C.keyOk h.key = true) (hs : C.Sound h.key) (hbs : 0 < C.bs) (hbs' : C.bs ≤ 255)
+    (p ct : Bytes) (he : ecbEncrypt C h.key p = some ct) (hbody : req.body = asciiBytes (b64Encode ct))
+    (hfr : (req.cl = req.body.length ∧ ¬ (cfg.limit > 0 ∧ req.cl > cfg.limit)) ∨
+           (req.cl = -1 ∧ (req.body.length : Int) ≤ (if cfg.limit > 0 then cfg.limit else maxBytes))) :
+    contentSecurity C env cfg req inner = flushResp C h.key p (inner p) := by
+  obtain ⟨ct', he', h1, h2⟩ := body_round_trip C h.key hk hs hbs hbs' cfg.limit p inner
+  have : ct' = ct := by rw [he] at he'; exact (Option.some.inj he').symm
+  subst this
+  have hd : ecbDecrypt C h.key ct' = .ok p := by
+    obtain ⟨c2, e2, d2⟩ := ecb_round_trip C h.key hk hs hbs hbs' p
+    rw [he] at e2; cases e2; exact d2
+  have hne : ct' ≠ [] := by
+    intro hh; subst hh; exact ecbDecrypt_nil_not_ok C h.key p hd
+  have hlen : 0 < req.body.length := by
+    rw [hbody, asciiBytes_b64_length]
+    exact List.length_pos_iff.mpr (b64EncodeChars_ne_nil ct' hne)
+  rcases hfr with ⟨hcl, hlim⟩ | ⟨hcl, hlim⟩
+  · rw [cs_encrypted_goes_to_cryption C env cfg req inner h hg hp hv ht (by omega), hcl, hbody]
+    apply h1
+    rw [← hbody, ← hcl]; exact hlim
+  · rw [cs_encrypted_goes_to_cryption C env cfg req inner h hg hp hv ht (by omega), hcl, hbody]
+    apply h2
+    rw [← hbody]; exact hlim
+
+/-- the monitor's notion of "the client encrypted `p` properly" holds of what a client computes -/
+theorem properlyEncrypted_of_encrypt (C : BlockCipher) (key : Bytes) (hk : C.keyOk key = true) (hs : C.Sound key)
+    (hbs : 0 < C.bs) (hbs' : C.bs ≤ 255) (p ct : Bytes) (he : ecbEncrypt C key p = some ct) :
+    properlyEncrypted C key (asciiBytes (b64Encode ct)) = some p := by
+  obtain ⟨k, hk'⟩ := pad_length C.bs hbs p
+  obtain ⟨l1, l2⟩ := cryptBlocks_round_trip C key hs hbs k _ hk'
+  obtain ⟨h1, h2⟩ := padLen_bounds C.bs p.length hbs
+  have hm : (pad C.bs p).length % C.bs = 0 := by rw [hk']; exact Nat.mul_mod_left _ _
+  have hct : ct = (chunks C.bs (pad C.bs p)).flatMap (C.enc key) := by
+    unfold ecbEncrypt at he
+    rw [if_pos hk] at he
+    unfold cryptBlocks at he
+    rw [if_neg (by omega)] at he
+    exact (Option.some.inj he).symm
+  have hkpos : 0 < k := by
+    rcases Nat.eq_zero_or_pos k with h0 | h0
+    · subst h0
+      unfold pad at hk'
+      simp only [List.length_append, List.length_replicate] at hk'
+      omega
+    · exact h0
+  have hctlen : ct.length = k * C.bs := by rw [hct]; exact l1
+  have hctpos : 0 < ct.length := by rw [hctlen]; exact Nat.mul_pos hkpos hbs
+  unfold properlyEncrypted
+  rw [bytesToString_asciiBytes_b64, b64Decode_encode]
+  simp only
+  have hne : ct.isEmpty = false := by
+    cases ct with
+    | nil => simp at hctpos
+    | cons => rfl
+  have hmod : ct.length % C.bs = 0 := by rw [hctlen]; exact Nat.mul_mod_left _ _
+  rw [if_neg (by simp [hne, hmod])]
+  rw [hct, l2]
+  unfold pad
+  generalize hn : C.bs - p.length % C.bs = n at h1 h2
+  rw [getLast?_append_replicate p n _ h1]
+  have hb : (UInt8.ofNat n).toNat = n := by
+    rw [UInt8.toNat_ofNat']; omega
+  simp only [hb, List.length_append, List.length_replicate]
+  rw [if_neg (by omega)]
+  have e1 : p.length + n - n = p.length := by omega
+  rw [e1, List.drop_left' rfl, List.take_left' rfl]
+  simp
+
+/-- the cryption monitor never fires on what the model answers to a properly encrypted payload -/
+theorem crypt_monitor_sound (C : BlockCipher) (key : Bytes) (hk : C.keyOk key = true) (hs : C.Sound key)
+    (hbs : 0 < C.bs) (hbs' : C.bs ≤ 255) (p reply : Bytes) :
+    cryptMonitor C key (some p) reply (flushResp C key p reply) = none := by
+  unfold cryptMonitor
+  cases hr : reply with
+  | nil => simp [flushResp]
+  | cons a t =>
+    obtain ⟨ct, he, _⟩ := ecb_round_trip C key hk hs hbs hbs' (a :: t)
+    have hpe := properlyEncrypted_of_encrypt C key hk hs hbs hbs' (a :: t) ct he
+    simp [flushResp, he, hpe]
+
+/-- … under both framings of the request: declared length and unknown length (chunked) -/
+theorem crypt_monitor_sound_on_handler (C : BlockCipher) (key : Bytes) (hk : C.keyOk key = true) (hs : C.Sound key)
+    (hbs : 0 < C.bs) (hbs' : C.bs ≤ 255) (limit : Int) (p ct : Bytes) (inner : Inner)
+    (he : ecbEncrypt C key p = some ct) (cl : Int)
+    (hfr : (cl = (asciiBytes (b64Encode ct)).length ∧ ¬ (limit > 0 ∧ cl > limit)) ∨
+           (cl = -1 ∧ ((asciiBytes (b64Encode ct)).length : Int) ≤ (if limit > 0 then limit else maxBytes))) :
+    cryptMonitor C key (properlyEncrypted C key (asciiBytes (b64Encode ct))) (inner p)
+      (cryptionHandler C limit key cl (asciiBytes (b64Encode ct)) inner) = none := by
+  rw [properlyEncrypted_of_encrypt C key hk hs hbs hbs' p ct he]
+  obtain ⟨ct', he', h1, h2⟩ := body_round_trip C key hk hs hbs hbs' limit p inner
+  have : ct' = ct := by rw [he] at he'; exact (Option.some.inj he').symm
+  subst this
+  rcases hfr with ⟨hcl, hlim⟩ | ⟨hcl, hlim⟩
+  · rw [hcl, h1 (by rw [← hcl]; exact hlim)]
+    exact crypt_monitor_sound C key hk hs hbs hbs' p (inner p)
+  · rw [hcl, h2 hlim]
+    exact crypt_monitor_sound C key hk hs hbs hbs' p (inner p)
+
+/-- witness (pinned code): with `ContentLength = -1` (chunked) the handler got the ciphertext text as it was sent -/
+theorem chunked_body_not_decrypted_pinned (C : BlockCipher) (limit : Int) (key raw : Bytes) (inner : Inner) :
+    cryptionHandlerPinned C limit key (-1) raw inner = flushResp C key raw (inner raw) := by
+  unfold cryptionHandlerPinned
+  rw [if_pos (by omega)]
 
 /-- witness (pinned code): a body that decodes to no bytes makes `pkcs5Unpadding` index out of range -/
 theorem unpadPinned_empty_panics (bs : Nat) : unpadPinned bs [] = .panic := rfl
@@ -395,7 +662,7 @@ private def exEnv : CsEnv :=
 private def exC : BlockCipher := { bs := 16, keyOk := fun _ => true, enc := fun _ b => b, dec := fun _ b => b }
 
 private def exReq (m p sig uri : String) : CsReq :=
-  { method := m, path := p, query := "", uri := uri, header := some ("good", "S", sig), cl := 0, body := [] }
+  { method := m, path := p, query := "", uri := uri, headers := ["key=good; secret=S; signature=" ++ sig], cl := 0, body := [] }
 
 /-- a correctly signed POST inside the window: runs, and the signature covers the request -/
 example : (contentSecurity exC exEnv ⟨true, 3, 0⟩ (exReq "POST" "/a" "100\nPOST\n/a\n\nd" "") id).ran = true
@@ -416,6 +683,23 @@ example : (contentSecurity exC exEnv ⟨true, 3, 0⟩ (exReq "PATCH" "/a" "forge
 /-- finding 2 (X-Request-Uri): a signature for `/other` is accepted on `/a` when the header names `/other` -/
 example : (contentSecurity exC exEnv ⟨true, 3, 0⟩ (exReq "POST" "/a" "100\nPOST\n/other\n\nd" "/other") id).ran = true
     ∧ csCovers exEnv ⟨true, 3, 0⟩ (exReq "POST" "/a" "100\nPOST\n/other\n\nd" "/other") = false := by decide
+
+/-- the identity "cipher" satisfies the hypotheses of the round-trip theorems -/
+example : exC.Sound [] := fun _ h => ⟨h, rfl⟩
+
+private def exRaw : Bytes := asciiBytes (b64Encode (pad 16 [1, 2, 3]))
+
+/-- a chunked encrypted body (`ContentLength = -1`): the fixed handler hands the payload on, the pinned one the text -/
+example : (cryptionHandler exC 0 [] (-1) exRaw (fun _ => [])).seen = [1, 2, 3] := by decide
+example : (cryptionHandlerPinned exC 0 [] (-1) exRaw (fun _ => [])).seen = exRaw := by decide
+example : cryptMonitor exC [] (some [1, 2, 3]) [] (cryptionHandlerPinned exC 0 [] (-1) exRaw (fun _ => []))
+    = some "crypt: the handler did not see the decrypted payload" := by decide
+example : cryptMonitor exC [] (some [1, 2, 3]) [] (cryptionHandler exC 0 [] (-1) exRaw (fun _ => [])) = none := by decide
+/-- declared length, no body, a body longer than the limit -/
+example : (cryptionHandler exC 0 [] 24 exRaw (fun _ => [])).seen = [1, 2, 3] := by decide
+example : (cryptionHandler exC 0 [] 0 [] (fun _ => [7])).body = asciiBytes (b64Encode (pad 16 [7])) := by decide
+example : cryptionHandler exC 20 [] (-1) exRaw (fun _ => []) = { ran := false, status := 400 } := by decide
+example : cryptionHandler exC 24 [] (-1) exRaw (fun _ => []) = { ran := true, seen := [1, 2, 3], status := 200 } := by decide
 
 end Examples
 
